@@ -673,7 +673,6 @@ func ruleT10Layout(c *Ctx) {
 	c.floor("T10l", 30)
 }
 
-
 // forwardIndexLoopOver: `for i := 0; i < len(<expr>.<field>); i++ {…}`; returns the index name.
 func forwardIndexLoopOver(fs *ast.ForStmt, field string) (string, bool) {
 	as, ok := fs.Init.(*ast.AssignStmt)
